@@ -408,4 +408,5 @@ func c06Det(c *Ctx) {
 		"compared with the Lean models Gzx.Det.* (found points, NotFound, PANIC) and judged by the oracle (no panic, result xor NotFound)"
 	c06detWRDSuite(c)
 	c06detQRSuite(c)
+	c06detDMSuite(c)
 }
